@@ -49,13 +49,15 @@ def read_generalized(s):
     return secs, off
 
 
-def read_utc(s):
+def read_utc(s, century=None):
+    """century: 1900 / 2000 to force the reading of the two-digit year (X.680 leaves it to the application;
+    default: the X.509 convention, 50..99 -> 19xx)"""
     m = UT.match(s)
     if not m:
         raise TimeSyntaxError(s)
     Y, Mo, D, H, Mi, S, z = m.groups()
     yy = int(Y)
-    year = 1900 + yy if yy >= 50 else 2000 + yy
+    year = (century + yy) if century else (1900 + yy if yy >= 50 else 2000 + yy)
     try:
         base = datetime.datetime(year, int(Mo), int(D), int(H), int(Mi), int(S or 0))
     except ValueError:
